@@ -31,6 +31,8 @@ def op_reads(op):
         return list(dict.fromkeys(d))
     if k in ("next", "drain", "drop"):
         return [op["it"]]
+    if k == "forget":
+        return [op["h"]]
     if k == "snapshot":
         return [op["h"]]
     if k == "restore":
@@ -234,6 +236,8 @@ def _first_divergence(ops, sut, refs):
                     live[n] = k
         if op["op"] == "crash":
             live = {}
+        if op["op"] == "forget":
+            live.pop(op["h"], None)
     if sut.get("audit") is not None:
         d = _audit_div(sut["audit"], live, refs, len(ops))
         if d:
